@@ -59,15 +59,15 @@ Print Assumptions C14_libs_covered.
 
 (* before the fix the first-occurrence de-duplication of option_list destroyed that order: on the
    witness project the line is a b c although c needs b, and a single-pass linker fails *)
-Theorem C14_order_refuted : exists proj n L x y,
+Theorem C14_order_refuted : forall as_needed, exists proj n L x y,
   wf_proj proj /\ p_final_libs false false proj false n false = Some L /\
   p_fwd x = true /\ In y (p_deps false false proj x) /\ In x L /\ (pos y L < pos x L)%nat /\
-  p_ld_links false false proj (p_user false false proj n false) L = false.
+  p_ld_links false false proj as_needed (p_user false false proj n false) L = false.
 Proof.
-  exists wproj, 3%nat, [la; lb; lc], lc, lb. split.
+  intros as_needed. exists wproj, 3%nat, [la; lb; lc], lc, lb. split.
   - intros n d. do 4 (destruct n as [|n]; [cbn; intuition (subst; cbn; lia)|]).
     cbn. destruct n; intros [].
-  - vm_compute. intuition (try discriminate; try lia).
+  - destruct as_needed; vm_compute; intuition (try discriminate; try lia).
 Qed.
 Print Assumptions C14_order_refuted.
 
@@ -89,9 +89,9 @@ Theorem C14_single_pass_links : forall deps fwd refs sym always,
 Proof. exact ld_links_fixed. Qed.
 Print Assumptions C14_single_pass_links.
 
-Theorem C14_project_links : forall ms mt proj n cs roots L,
+Theorem C14_project_links : forall ms mt proj as_needed n cs roots L,
   p_final_libs ms mt proj true n cs = Some L -> incl roots (p_user ms mt proj n cs) ->
-  p_ld_links ms mt proj roots L = true.
+  p_ld_links ms mt proj as_needed roots L = true.
 Proof. exact p_ld_links_fixed. Qed.
 Print Assumptions C14_project_links.
 
@@ -154,7 +154,7 @@ Print Assumptions C14_rpaths_complete.
 (* the witness with the fix: a c b, and the linker model accepts it *)
 Example ex_fixed_line : p_final_libs false false wproj true 3 false = Some [la; lc; lb].
 Proof. vm_compute. reflexivity. Qed.
-Example ex_fixed_links : p_ld_links false false wproj (p_user false false wproj 3 false) [la; lc; lb] = true.
+Example ex_fixed_links : p_ld_links false false wproj true (p_user false false wproj 3 false) [la; lc; lb] = true.
 Proof. vm_compute. reflexivity. Qed.
 (* Link.libs before the fix has the duplicate: a b c b *)
 Example ex_raw_libs : p_link_libs false false wproj false 3 false = Some [la; lb; lc; lb].
